@@ -127,6 +127,10 @@ func c16Rules(tier string) []Rule {
 		)},
 		// findUnhealthyConditions: a condition is returned only when its status equals the policy's status
 		core.Custom{ID: "C16.DOM5", Kind: "DOM", Run: c16FindUnhealthy},
+		// …and the toleration returned with it is that condition's own policy's: the pair is replaced as a whole
+		core.Custom{ID: "C16.PHI1", Kind: "PROV", Run: func(w *core.World, id string) []core.Result {
+			return core.PhiCoUpdate(w, id, "PROV", "(*controllers/node/health.Controller).findUnhealthyConditions", []int{0, 1}, "the unhealthy condition and the toleration duration returned belong to the same repair policy")
+		}},
 	}
 }
 
